@@ -22,6 +22,11 @@ def define_entities(db):
         name = Required(str)
         n = Optional(int)
         ps = Set('P')
+        tags = Set('T')
+    class T(db.Entity):
+        id = PrimaryKey(int)
+        w = Required(int)
+        gs = Set(G)
     class P(db.Entity):
         id = PrimaryKey(int)
         a = Required(int, size=64)
@@ -84,7 +89,11 @@ def g_atoms():
             'g in (p.g for p in P if p.a > x)', 'g.n == max(p.a for p in P)', 'g.n < sum(p.a for p in P if p.g == g)',
             "g.name in (p.s for p in g.ps)", "exists(p for p in g.ps if p.s.startswith(g.name))", 'g.ps.select(lambda p: p.a > x)',
             'g.ps.count() > x', 'g.ps.is_empty()', 'count(p for p in g.ps if p.f) == x', 'not exists(p for p in g.ps if not p.b)',
-            'g.n is None and not g.ps', 'len(g.ps) == len(g.name)']
+            'g.n is None and not g.ps', 'len(g.ps) == len(g.name)',
+            # many-to-many
+            'g.tags', 'not g.tags', 'len(g.tags) > x', 'count(g.tags) == x', 'x in g.tags.w', 'x not in g.tags.w', 'sum(g.tags.w) > x', 'max(g.tags.w) == x',
+            'exists(t for t in g.tags if t.w > x)', 'not exists(t for t in g.tags if t.w == g.n)', 'g.tags.count() == len(g.ps)', 'g.tags.is_empty()',
+            'exists(t for t in T if g in t.gs and t.w == x)', 'len(g.tags) > len(g.ps)', 'min(t.w for t in g.tags) < x', 'g.n in g.tags.w']
 
 
 SCOPE = {'x': INT(1), 'y': STR('a')}
@@ -150,6 +159,14 @@ def programs(tier, rng):
         add('((g, p.f) for g in G for p in g.ps if %s)' % c, 'join')
         add('(p.f for g in G for p in g.ps if %s)' % c, 'join')
         add('((g.name, p.f) for g in G for p in g.ps if %s)' % c, 'join')
+    for c in ['t.w > x', 'g.n == t.w', 'g.n is None or t.w == x', 'not g.ps']:
+        add('(g for g in G for t in g.tags if %s)' % c, 'join')
+        add('(t for t in T for g in t.gs if %s)' % c, 'join')
+        add('((g.id, t.w) for g in G for t in g.tags if %s)' % c, 'join')
+        add('(t.w for g in G for t in g.tags if %s)' % c, 'join')
+        add('((g, t) for t in T for g in G if g in t.gs and %s)' % c, 'join')
+    for e in ['(t.id, len(t.gs))', '(t.id, sum(t.gs.n))', 't.w', '(t.id, count(g for g in t.gs if g.n))']:
+        add('(%s for t in T)' % e, 'g-projection')
     if tier == 'quick':
         core = [p for p in progs if p.note in ('atom', 'not-atom', 'g-atom', 'g-not-atom', 'join', 'nesting')]
         rest = [p for p in progs if p.note not in ('atom', 'not-atom', 'g-atom', 'g-not-atom', 'join', 'nesting')]
